@@ -61,6 +61,9 @@ Definition agree (k : case) : bool :=
   | KScaled2 sh s o p tol out => q2tol tol (@scaled_coordinates_2d_from QOps p sh s o) out
   | KExtent1 n s o tol out => q2tol tol (@Geometry1D_extent QOps n s o) out
   | KExtent2 sh s o tol out => q4tol tol (@Geometry2D_extent QOps sh s o) out
+  | KExtentGrid sh s o tol ext g =>
+      q4tol tol (@Geometry2D_extent QOps sh s o) ext &&
+      lq2 tol (@grid_2d_slim_via_mask_from QOps (repeat (repeat false (Z.to_nat (snd sh))) (Z.to_nat (fst sh))) s o) g
   | KGridPixels sh s o g tol out => lq2 tol (@grid_pixels_2d_slim_from QOps g sh s o) out
   | KGridCentres sh s o g out => lq2 0 (@grid_pixel_centres_2d_slim_from QOps g sh s o) out
   | KGridIndexes sh s o g out => list_eqb Qeq_bool (@grid_pixel_indexes_2d_slim_from QOps g sh s o) out
